@@ -368,6 +368,42 @@ func ZZVerifC01View() {
 	nd.Reach("C01/view-end")
 }
 
+// ZZVerifC01CopyDeep: copies are deep. The populated tree (with the empty
+// directory a/d and the file a/f) is copied to b by either copy operation;
+// then one symbolic operation is applied below the source or below the copy
+// (through a child view, so that three-character spellings reach the nested
+// nodes) and the whole tree is compared: nothing done on one side shows on
+// the other.
+func ZZVerifC01CopyDeep() {
+	root, _ := NewFilespace()
+	ref := reftree.NewRoot()
+	zzPrelude(root, ref)
+	var err error
+	if nd.Bool("copydir") {
+		err = root.CopyDirectory("a", "b")
+	} else {
+		err = root.Copy("a", "b")
+	}
+	nd.Assert(err == nil, "C01/copydeep-copy-result")
+	nd.Assert(ref.CopyTo(ref.Find([]string{"a"}), []string{"b"}), "C01/ref")
+	nd.Assert(reftree.Same(root, ref, nil), "C01/copydeep-copied-tree")
+	side := "a"
+	if nd.Bool("below-copy") {
+		side = "b"
+	}
+	view, err := root.Filespace(side)
+	nd.Assert(err == nil, "C01/view-open")
+	if err != nil {
+		return
+	}
+	sub := ref.Find([]string{side})
+	if zzStep(view, sub, nd.Param("OPS", zzNOps)) {
+		return
+	}
+	nd.Assert(reftree.Same(root, ref, nil), "C01/copydeep-other-side-unchanged")
+	nd.Reach("C01/copydeep-end")
+}
+
 // ZZVerifC01Alias: byte slices and listings handed in or out are snapshots.
 func ZZVerifC01Alias() {
 	fs, _ := NewFilespace()
